@@ -644,6 +644,39 @@ pub fn gen_maskpaths(rng: &mut Rng) -> Vec<Vec<String>> {
     cases
 }
 
+/// The write-buffer bound at the exact encoded size of a frame, for every header-size class:
+/// a small frame stays unsent (the transport refuses), then a frame of `n` bytes is written with
+/// `max_write_buffer_size` = unsent + encoded size - delta.
+pub fn gen_wbound(rng: &mut Rng) -> Vec<Vec<String>> {
+    let mut cases = Vec::new();
+    let mut id = 0;
+    for (role, client) in [("server", false), ("client", true)] {
+        let mask = if client { 4 } else { 0 };
+        for n in [0usize, 1, 125, 126, 127, 65535, 65536, 65537] {
+            let hdr = 2 + if n < 126 { 0 } else if n < 65536 { 2 } else { 8 } + mask;
+            let first = 2 + mask + 3;
+            for delta in 0..8usize {
+                let maxw = first + hdr + n - delta.min(first + hdr + n - 1);
+                let mut lines = vec![format!("case endpoint wbound-{id}")];
+                id += 1;
+                lines.push(format!(
+                    "cfg role={role} rbuf=4096 wbuf=0 maxw={maxw} maxmsg=none maxframe=none unmasked=0 pre=none"
+                ));
+                lines.push(format!("script rd=- rddef=b wr=- wrdef=b fl=- fldef=o"));
+                lines.push(format!("op write binary {} {}", hex(&[1, 2, 3]), masks_tok(rng, client, 2)));
+                lines.push(format!("op write binary {} {}", hex(&payload(rng, n)), masks_tok(rng, client, 2)));
+                lines.push(format!("script rd=- rddef=b wr=- wrdef=a{} fl=- fldef=o", 1usize << 40));
+                lines.push(format!("op flush {}", masks_tok(rng, client, 2)));
+                lines.push(format!("op write binary {} {}", hex(&payload(rng, n)), masks_tok(rng, client, 2)));
+                lines.push(format!("op flush {}", masks_tok(rng, client, 2)));
+                lines.push("end".into());
+                cases.push(lines);
+            }
+        }
+    }
+    cases
+}
+
 /// Every way of cutting some short byte strings (valid and invalid UTF-8, incl. characters
 /// interrupted by text that is valid on its own) into text fragments, for both roles.
 pub fn gen_utf8cuts(rng: &mut Rng) -> Vec<Vec<String>> {
